@@ -878,21 +878,27 @@ theorem C16_final_keys {α : Type} [Arith α] (files : List (UnitsFile α)) (con
 
 /-- Instance for the shipped units file: the generated `Converter.bundled` (the converter all C09/C03 runs compare with
     `Converter::bundled()`) has globally unique, non-blank keys — every key of every unit occurs once in the list of all
-    keys.  Derived from `C16_final_keys` (a fact about EVERY built converter) through `C16_built_bundled_is_generated`,
-    not by evaluating the table. -/
+    keys — and the unit index of the converter built from the shipped file holds exactly these keys, each once.
+    Derived from `C16_final_keys` (a fact about EVERY built converter) through `C16_built_bundled_is_generated`, not by
+    evaluating the key table. -/
 theorem C16_bundled_keys_unique :
     ((Cook.Converter.bundled Rat).allUnits.flatMap (·.allKeys)).Nodup ∧
-    ∀ u, u ∈ (Cook.Converter.bundled Rat).allUnits → u.allKeys ≠ [] ∧ ∀ k, k ∈ u.allKeys → isBlankKey k = false := by
+    (∀ u, u ∈ (Cook.Converter.bundled Rat).allUnits → u.allKeys ≠ [] ∧ ∀ k, k ∈ u.allKeys → isBlankKey k = false) ∧
+    ∃ conv : Bld.Converter Rat, bundled = .ok conv ∧ (conv.index.map (·.1)).Nodup ∧
+      (conv.index.map (·.1)).Perm ((Cook.Converter.bundled Rat).allUnits.flatMap (·.allKeys)) := by
   obtain ⟨conv, hb, hsame⟩ := C16_built_bundled_is_generated
-  obtain ⟨hk, hall, _⟩ := C16_final_keys [Gen.shippedFile] conv hb
+  obtain ⟨hk, hall, hn, hperm, _⟩ := C16_final_keys [Gen.shippedFile] conv hb
   have hmap : (convOfBuilt conv).allUnits.map (·.allKeys) = conv.units.map (·.keys) := by
     apply List.ext_getElem?
     intro i
     rw [List.getElem?_map, allUnits_getElem?, List.getElem?_map]
     cases conv.units[i]? <;> rfl
-  rw [← hsame.1]
-  refine ⟨by rw [List.flatMap_def, hmap, ← List.flatMap_def]; exact hall, ?_⟩
+  have hflat : (Cook.Converter.bundled Rat).allUnits.flatMap (·.allKeys) = conv.units.flatMap (·.keys) := by
+    rw [← hsame.1, List.flatMap_def, hmap, ← List.flatMap_def]
+  rw [hflat]
+  refine ⟨hall, ?_, conv, hb, hn, hperm⟩
   intro x hx
+  rw [← hsame.1] at hx
   obtain ⟨i, u, hu, rfl⟩ := (mem_allUnits conv x).mp hx
   obtain ⟨h1, h2, _⟩ := hk u (List.mem_of_getElem? hu)
   exact ⟨h1, h2⟩
